@@ -83,3 +83,17 @@ Proof.
   intros. cbn [wf_ops wf_op]. rewrite !step_chain. cbn [init n_chain app length firstn Nat.sub last_opt].
   repeat split; try (cbn; lia); try (eexists; repeat split; reflexivity).
 Qed.
+
+(* ---- the unconfirmed pool (chain/account_pool.go DeleteMomentum / rebuild, model Pool.v shared with C14): after a
+   rollback to j confirmed blocks of an account the manager holds exactly those blocks and nothing unconfirmed, so two
+   nodes whose j oldest blocks agree — one that had pooled and confirmed anything on the abandoned branch, one that never
+   saw it — are in the same state and answer every later pool operation alike *)
+From ZV Require Pool PoolProofs.
+Theorem C06_pool_rollback_leaves_no_trace : forall (a1 a2 : Pool.acct) (j : nat) (ops : list Pool.op),
+  (j <= Pool.sh a1)%nat -> (j <= Pool.sh a2)%nat ->
+  skipn (length (Pool.rchain a1) - j) (Pool.rchain a1) = skipn (length (Pool.rchain a2) - j) (Pool.rchain a2) ->
+  Pool.run a1 (Pool.ODelete j :: ops) = Pool.run a2 (Pool.ODelete j :: ops).
+Proof. exact PoolProofs.delete_then_same. Qed.
+Theorem C06_pool_empty_after_rollback : forall (a : Pool.acct) (j : nat), Pool.wf a -> (j <= Pool.sh a)%nat ->
+  let a' := fst (Pool.step a (Pool.ODelete j)) in length (Pool.rchain a') = Pool.sh a' /\ Pool.sh a' = j.
+Proof. exact PoolProofs.delete_pool_empty. Qed.
